@@ -161,7 +161,10 @@ def gen_wide(ch: Choices, known: dict):
 
 def run_wide(ch: Choices, params: dict) -> dict:
     out = {"violations": [], "probes": Counter(), "faults": Counter(), "steps": 0, "nontrivial": True}
-    models, ops = gen_wide(ch, params.get("known", {}))
+    if params.get("explicit"):  # a pinned scenario (known/, regress/): the list of calls written out
+        models, ops = params["explicit"]["models"], params["explicit"]["ops"]
+    else:
+        models, ops = gen_wide(ch, params.get("known", {}))
     spec = {"models": models, "ops": ops}
     pats = [0xFF, 0xA5, 0x00, ["random", ch.choose(1 << 16, "alloc.seed")], None]
     alloc = pats[ch.choose(len(pats), "alloc")]
